@@ -236,9 +236,10 @@ impl Deserializable for StackOutputs {
         let count = source.read_u32()?.try_into().expect("u32 must fit in a usize");
         let overflow_addrs = source.read_many::<u64>(count)?;
 
-        Ok(Self {
-            stack,
-            overflow_addrs,
-        })
+        // stack outputs read from bytes must satisfy the same rules as those built through the
+        // constructor (canonical field elements, at least 16 stack elements after padding, a
+        // consistent number of overflow addresses): the verifier relies on them
+        Self::new(stack, overflow_addrs)
+            .map_err(|err| DeserializationError::InvalidValue(format!("{err}")))
     }
 }
